@@ -234,7 +234,7 @@ def read_case(draw):
                      st.tuples(st.just("all"), st.one_of(st.none(), small), st.one_of(st.none(), st.integers(1, n + 1))),
                      st.tuples(st.just("all"), st.none(), st.integers(1, 3)),
                      st.tuples(st.just("append"), st.integers(0, n - 1)))
-    return {"msgs": msgs, "calls": [list(c) for c in draw(st.lists(call, min_size=4, max_size=24))], "realfile": draw(st.integers(0, 5)) == 0}
+    return {"msgs": msgs, "calls": [list(c) for c in draw(st.lists(call, min_size=4, max_size=24))], "realfile": draw(st.integers(0, 2)) == 0}
 
 
 def read_oracle(case):
@@ -251,8 +251,12 @@ def read_oracle(case):
     else:
         ddf = data_dump.DATADumpFile(io.BytesIO())
     kinds = set()
+    writer = None
     try:
         ddf.append_all([tk.build_msg(m) for m in msgs])
+        if path:
+            ddf.f.flush()
+            writer = data_dump.DATADumpFile(path)
         for k, c_ in enumerate(case["calls"]):
             n = len(msgs)
             hist = [tuple(x) for x in case["calls"][max(0, k - 3):k + 1]]
@@ -274,11 +278,21 @@ def read_oracle(case):
                 check_list(r, exp_, "parse_all(skip=%r,count=%r)-after-other-reads (call %d, last calls %r)" % (skip, count, k, hist))
             else:
                 m = dict(msgs[c_[1] % n], fn=(msgs[c_[1] % n]["fn"] + 1) % 2715648)
-                ddf.append_msg(tk.build_msg(m))
+                if writer is not None and c_[1] % 2:
+                    # the capture grows through ANOTHER handle on the same file (a sniffer writing while a reader is open):
+                    # what is on disk when a read starts must be returned
+                    writer.append_msg(tk.build_msg(m))
+                    writer.f.flush()
+                    kinds.add("append-via-second-handle")
+                else:
+                    ddf.append_msg(tk.build_msg(m))
+                    ddf.f.flush()
                 msgs.append(m)
             kinds.add(c_[0])
     finally:
         ddf.f.close()
+        if writer is not None:
+            writer.f.close()
         if path and os.path.exists(path):
             os.unlink(path)
     return (["reads=%d" % min(24, len(case["calls"]) // 4 * 4), "realfile" if case["realfile"] else "bytesio"] + sorted(kinds),
